@@ -5,8 +5,11 @@ package composefs
 
 import (
 	"fmt"
+	"runtime"
 	"sync"
+	"sync/atomic"
 	"testing"
+	"time"
 
 	"github.com/hugelgupf/p9/fsimpl/staticfs"
 	"github.com/hugelgupf/p9/p9"
@@ -152,4 +155,122 @@ func TestVerifC20FsConc(t *testing.T) {
 		wg.Wait()
 		out.Emit(map[string]interface{}{"kind": "fsconc", "obs": all})
 	}
+	vh20Probe(t, out)
+}
+
+// vh20Gate is a mounted File whose GetAttr holds its callers until vh20N of them are
+// inside and then lets them all go at once, each with the same QID path that was never
+// seen before (one new path per group).  The callers therefore enter Mapper.QIDFor of
+// the mount's wrapper together, for a fresh source path: the interleaving in which a
+// check-then-act QIDFor hands out two paths for one file.
+type vh20Gate struct {
+	p9.File // nil: only the methods below are used
+	n       int64
+	arrived int64
+	on      int32
+}
+
+func (g *vh20Gate) Walk(names []string) ([]p9.QID, p9.File, error) {
+	if len(names) != 0 {
+		return nil, nil, fmt.Errorf("gate: not a directory")
+	}
+	return nil, g, nil
+}
+
+func (g *vh20Gate) Close() error { return nil }
+
+func (g *vh20Gate) GetAttr(req p9.AttrMask) (p9.QID, p9.AttrMask, p9.Attr, error) {
+	if atomic.LoadInt32(&g.on) == 0 {
+		return p9.QID{Type: p9.TypeRegular, Path: 1}, req, p9.Attr{Mode: p9.ModeRegular | 0o444}, nil
+	}
+	k := atomic.AddInt64(&g.arrived, 1) - 1
+	group := k / g.n
+	target := (group + 1) * g.n
+	deadline := time.Now().Add(2 * time.Second)
+	for i := 0; atomic.LoadInt64(&g.arrived) < target; i++ {
+		if i%1024 == 1023 {
+			runtime.Gosched()
+			if time.Now().After(deadline) {
+				break
+			}
+		}
+	}
+	return p9.QID{Type: p9.TypeRegular, Path: 1000 + uint64(group)}, req, p9.Attr{Mode: p9.ModeRegular | 0o444}, nil
+}
+
+func vh20Probe(t *testing.T, out *vhfsOut) {
+	workers := runtime.GOMAXPROCS(0)
+	if workers > 8 {
+		workers = 8
+	}
+	if workers < 2 {
+		workers = 2
+	}
+	rounds := 3000
+	if vhfsThorough() {
+		rounds = 30000
+	}
+	gate := &vh20Gate{n: int64(workers)}
+	fs, err := New(WithFile("gate", gate), WithFile("plain", staticfs.ReadOnlyFile("p")))
+	if err != nil {
+		t.Fatal(err)
+	}
+	root, _ := fs.Attach()
+	_, wrapped, err := root.Walk([]string{"gate"}) // the mount's qid wrapper around the gate
+	if err != nil {
+		t.Fatal(err)
+	}
+	atomic.StoreInt32(&gate.on, 1)
+	res := make([][]uint64, workers)
+	var wg sync.WaitGroup
+	stop := time.Now().Add(20 * time.Second)
+	for w := 0; w < workers; w++ {
+		w := w
+		res[w] = make([]uint64, 0, rounds)
+		wg.Add(1)
+		go func() {
+			defer wg.Done()
+			for r := 0; r < rounds && time.Now().Before(stop); r++ {
+				q, _, _, err := wrapped.GetAttr(p9.AttrMask{Mode: true})
+				if err != nil {
+					t.Errorf("probe getattr: %v", err)
+					return
+				}
+				res[w] = append(res[w], q.Path)
+			}
+		}()
+	}
+	wg.Wait()
+	atomic.StoreInt32(&gate.on, 0)
+	// Workers advance in lock step (a group completes only when all have arrived), so
+	// res[w][r] belongs to group r.  Report the first rounds and every round with a disagreement.
+	type ob struct {
+		Name string `json:"name"`
+		Path uint64 `json:"path"`
+	}
+	n := len(res[0])
+	for _, x := range res {
+		if len(x) < n {
+			n = len(x)
+		}
+	}
+	var all []ob
+	bad := 0
+	for r := 0; r < n; r++ {
+		differ := false
+		for w := 1; w < workers; w++ {
+			if res[w][r] != res[0][r] {
+				differ = true
+			}
+		}
+		if differ {
+			bad++
+		}
+		if r < 40 || (differ && bad <= 20) {
+			for w := 0; w < workers; w++ {
+				all = append(all, ob{fmt.Sprintf("gate#%d", r), res[w][r]})
+			}
+		}
+	}
+	out.Emit(map[string]interface{}{"kind": "fsconc", "obs": all, "probe_rounds": n, "probe_workers": workers, "probe_disagreements": bad})
 }
